@@ -161,18 +161,27 @@ SPECS = [
               "connection updates, feature/version exchange, then one of {remote LL_TERMINATE_IND with random reason, local disconnect() "
               "with default/custom reason, central silent (supervision), LL_CONNECTION_UPDATE_IND with passed instant} preceded IN THE SAME "
               "connection event by a burst of 0..8 PDUs that each produce a callback (reject, reject ext, unknown rsp, feature req, version "
-              "ind, phy update), lost events in between; plus the random control PDU workload of C27. The callback sequence per connection "
+              "ind, phy update), lost events in between; on the encrypting option sets a completed encryption start (LL_START_ENC_RSP) and "
+              "LL_PAUSE_ENC_REQ each as last PDU of such a burst, connection updates whose instant is reached in an event with such a burst: "
+              "every actual change (encryption on/off as decided by the C28 automaton and confirmed by security_attributes, connection "
+              "update at its instant) must be reported by exactly one ll_connection_changed; plus the random control PDU workload of C27. "
+              "The callback sequence per connection "
               "is checked online against requested (established changed* closed(reason) | attempt_timeout) with ground truth from the "
               "radio (CONNECT_IND delivered, first event heard, back to advertising, PDUs that reached the link layer). distinct_nontrivial "
               "= distinct (cause of the end, burst size, callback sequence).",
          plan=plan_c29,
          floor={"min_evaluations": 30000, "min_distinct": 300,
                 "classes": ["end:remote_terminate", "end:local_disconnect", "end:supervision_timeout", "end:instant_passed", "end:never_answered",
-                            "end:burst0", "end:burst1-3", "end:burst4", "end:burst5+", "scenario:never_answer", "life:connection_update"],
+                            "end:burst0", "end:burst1-3", "end:burst4", "end:burst5+", "scenario:never_answer", "life:connection_update",
+                            "scenario:encryption_change_in_burst", "change:encryption_on", "change:encryption_off", "change:connection_update",
+                            "change_burst:burst0", "change_burst:burst1-3", "change_burst:burst4", "change_burst:burst5+",
+                            "changed_reported:encryption_on", "changed_reported:encryption_off", "changed_reported:connection_update"],
                 "counters": {"connections": 2000, "callbacks": 10000}},
          assumptions=[ASSUME_RADIO,
-                      "completeness is demanded for requested / established / attempt_timeout / closed only; a lost `changed`, version, "
-                      "reject, unknown, feature or phy callback is not a violation (the statement does not promise them)",
+                      "completeness is demanded for requested / established / attempt_timeout / closed and for ll_connection_changed (one per "
+                      "encryption on/off and per applied connection update, in the life and enc workloads where every source of change is "
+                      "tracked; not on connections where the processing order is unknown or that end while the change is under way); a lost "
+                      "version, reject, unknown, feature or phy callback is not a violation",
                       "for a local disconnect the reason given to disconnect() is the consistent one"],
          design_ref="4/C29", technique="online regular-language trace checker fed with the simulated radio's ground truth, ASan/UBSan"),
 ]
